@@ -5,6 +5,7 @@ package c12
 import (
 	"fmt"
 	"math"
+	"math/bits"
 	"sort"
 	"testing"
 
@@ -42,56 +43,133 @@ type Case struct {
 	Prealloc int32  `json:"prealloc,omitempty"`
 	Steps    []Step `json:"steps,omitempty"`
 	Class    string `json:"class,omitempty"`
+	// Shape selects how the (same) argument values are handed to the library: an empty list as nil / empty with
+	// guarded spare capacity / empty exact-size; a non-empty list with guarded spare capacity or as an exact-size copy
+	// (see shapeSel / shaped). 0 = every list non-nil with guarded spare capacity (what every case did before the
+	// field existed, so older case files keep their meaning).
+	Shape uint32 `json:"shape,omitempty"`
+	// ToArr (of, maxbitmap): run the bit-by-bit ToArray even though the bitmap is beyond the quick tier's size limit.
+	ToArr bool `json:"toarr,omitempty"`
 }
 
 var checker = &vk.Checker[Case]{
 	ID: "C12",
-	Rule: "Of: ascending position lists (empty, 63/64/65/127/128, gaps up to 2^20; a class with runs of adjacent positions) x n in {absent, negative, 0, < last+1, last+1, last+2, word boundary +-1, far larger}; arbitrary bitmaps for ToArray/Of round trips and Get/Get1/SafeGet/SafeGet1 probes (inside; outside: -1, -64, MinInt32, 64*len, 64*len+63, MaxInt32); " +
-		"OfMany on segments cut from one global ascending list (positions >= size occur, size 0 occurs); Builder histories of Extend (ascending positions incl. >= size, size >= 0) and Set(pos, value in {0,1}) on builders pre-sized with 0/64/1000 bits, model compared after EVERY step (Offset, exact bits, enough words). Oracle: a set of bit positions + word-count formula. " +
-		"Top of the int32 range: Of / OfMany with last position 2^31-1 or sizes up to 2^31-1 (results of 2^25 words), Get/Get1/SafeGet/SafeGet1 on the maximum bitmap (exactly 2^25 words, three sparse descriptions); thorough also ToArray of it. " +
-		"Grid: Of on all subsets of {0,1,62,63,64,65,127,128} x 12 values of n. Non-trivial: >= 2 positions spanning >= 2 words (Of/bitmap); histories with >= 2 segments in which a position >= its size or an offset crosses a word boundary. Distinct by hash of the case.",
+	Rule: "Of: ascending position lists (empty - nil and non-nil -, 63/64/65/127/128, gaps up to 2^20; a class with runs of adjacent positions; a class of long lists, 61..4096 (thorough 65536) positions with a log-uniform count) x n in {absent, negative, 0, < last+1, last+1, last+2, word boundary +-1, far larger}; arbitrary bitmaps for ToArray/Of round trips and Get/Get1/SafeGet/SafeGet1 probes (inside; outside: -1, -64, MinInt32, 64*len, 64*len+63, MaxInt32), of 0..12 words and, classes big-*, of 13..4108 (thorough 65548) words with a log-uniform length, probed bit by bit in the first and last two words and at up to 512 of their ones; " +
+		"OfMany on segments cut from one global ascending list (positions >= size occur, size 0 occurs): few small segments, or segment sizes of log-uniform magnitude up to 2^24 (running sums in every octave up to 2^27), or up to 512 (thorough 4096) small segments, or no segment at all (nil / empty arguments); sub-lists reach the library nil, empty or with guarded spare capacity, element-wise mixed; Builder histories of Extend (ascending positions incl. >= size, size >= 0) and Set(pos, value in {0,1}) on pre-sized builders (0/63/64/65/1000 bits or log-uniform), model compared after EVERY step (Offset, exact bits, enough words): up to 12 small steps, or sizes / Set positions of log-uniform magnitude up to 2^20 (thorough 2^24), or 30..345 (thorough 2140) steps. Oracle: the sorted list of bit positions (Builder: a sparse word model) + word-count formula; OfMany and Builder.Words must have a word for every bit of the declared sizes and for every listed position (lower bound only; the exact count is asserted for Of alone). " +
+		"Top of the int32 range: Of / OfMany with last position 2^31-1 or sizes up to 2^31-1 (results of 2^25 words), a Builder history that ends at Offset 2^31-1 (pre-sized; thorough also grown word by word), Get/Get1/SafeGet/SafeGet1 on the maximum bitmap (exactly 2^25 words, three sparse descriptions) and ToArray of one of them (thorough: all three). " +
+		"Grid: Of on all subsets of {0,1,62,63,64,65,127,128} x 12 values of n; sweeps over 2^k-1, 2^k, 2^k+1 and values inside every octave for: the last position of Of (25 <= k <= 30), the running sum of OfMany (k <= 29), the number of OfMany segments (k <= 13), Builder segment sizes and Set positions (k <= 24), the number of Builder steps (k <= 12), position-list lengths (k <= 14) and bitmap lengths in words (k <= 13), those of 128 elements and more under every GOMAXPROCS setting of the procs process. Non-trivial: >= 2 positions spanning >= 2 words (Of/bitmap); histories with >= 2 segments in which a position >= its size or an offset crosses a word boundary. Distinct by hash of the case.",
 	Check:    check,
 	Classify: classify,
 }
 
 func bitOf(w []uint64, i int) uint64 { return w[i/64] >> (uint(i) % 64) & 1 }
 
-func bitsEqual(got []uint64, set map[int]bool) (int, bool) {
-	exp := map[int]uint64{}
-	for p := range set {
-		if p >= 64*len(got) {
-			return p, false
+// bitsMatch compares a result with the sorted (non-decreasing) list of the positions that must be 1 - every other
+// bit of every word must be 0. It returns a wrong bit position (a listed position without a word counts as wrong).
+func bitsMatch(got []uint64, sorted []int64) (int64, bool) {
+	i, wi := 0, 0
+	for wi < len(got) {
+		// the words before the next listed position are all zero (the long empty stretches of a huge result are
+		// compared four words at a time)
+		next := len(got)
+		if i < len(sorted) && sorted[i]>>6 < int64(next) {
+			next = int(sorted[i] >> 6)
 		}
-		exp[p/64] |= 1 << (uint(p) % 64)
-	}
-	seen := 0
-	for wi, g := range got {
-		if g == 0 { // (no map lookup for the empty words of a huge result)
-			continue
-		}
-		if g != exp[wi] {
-			d := g ^ exp[wi]
-			for b := 0; b < 64; b++ {
-				if d>>uint(b)&1 == 1 {
-					return 64*wi + b, false
-				}
+		for ; wi+4 <= next; wi += 4 {
+			if got[wi]|got[wi+1]|got[wi+2]|got[wi+3] != 0 {
+				break
 			}
 		}
-		seen++
-	}
-	if seen != len(exp) {
-		for wi, e := range exp {
-			if got[wi] != e {
-				d := got[wi] ^ e
-				for b := 0; b < 64; b++ {
-					if d>>uint(b)&1 == 1 {
-						return 64*wi + b, false
-					}
-				}
+		for ; wi < next; wi++ {
+			if g := got[wi]; g != 0 {
+				return 64*int64(wi) + int64(bits.TrailingZeros64(g)), false
 			}
 		}
+		if wi >= len(got) {
+			break
+		}
+		var e uint64
+		for i < len(sorted) && sorted[i]>>6 == int64(wi) {
+			e |= 1 << (uint64(sorted[i]) & 63)
+			i++
+		}
+		if g := got[wi]; g != e {
+			return 64*int64(wi) + int64(bits.TrailingZeros64(g^e)), false
+		}
+		wi++
+	}
+	if i < len(sorted) {
+		return sorted[i], false
 	}
 	return 0, true
+}
+
+// sorted64 returns the positions as a non-decreasing list (generated lists already are; a hand-written case file
+// may hold anything) and whether the list as given was strictly ascending.
+func sorted64(out []int64) ([]int64, bool) {
+	strict, nondecr := true, true
+	for i := 1; i < len(out); i++ {
+		if out[i-1] >= out[i] {
+			strict = false
+		}
+		if out[i-1] > out[i] {
+			nondecr = false
+		}
+	}
+	if !nondecr {
+		sort.Slice(out, func(i, j int) bool { return out[i] < out[j] })
+	}
+	return out, strict
+}
+
+// wordModel is the oracle of a Builder history: the expected non-zero words, kept sparse (a history may end at bit 2^31-1).
+type wordModel struct {
+	words  map[int64]uint64
+	maxbit int64
+}
+
+func newWordModel() *wordModel { return &wordModel{words: map[int64]uint64{}, maxbit: -1} }
+
+func (m *wordModel) set(p int64) {
+	m.words[p>>6] |= 1 << (uint64(p) & 63)
+	if p > m.maxbit {
+		m.maxbit = p
+	}
+}
+
+// diff returns the lowest wrong bit of got (a model bit without a word counts as wrong).
+func (m *wordModel) diff(got []uint64) (int64, bool) {
+	nz := 0
+	for wi := 0; wi < len(got); wi++ {
+		if wi+4 <= len(got) && got[wi]|got[wi+1]|got[wi+2]|got[wi+3] == 0 {
+			wi += 3 // (the long empty stretches of a huge result: four words at a time, no map lookup)
+			continue
+		}
+		g := got[wi]
+		if g == 0 {
+			continue
+		}
+		if e := m.words[int64(wi)]; g != e {
+			return 64*int64(wi) + int64(bits.TrailingZeros64(g^e)), false
+		}
+		nz++
+	}
+	if nz == len(m.words) {
+		return 0, true
+	}
+	bad := int64(math.MaxInt64)
+	for wi, e := range m.words {
+		var g uint64
+		if wi < int64(len(got)) {
+			g = got[wi]
+		}
+		if g != e {
+			if p := 64*wi + int64(bits.TrailingZeros64(g^e)); p < bad {
+				bad = p
+			}
+		}
+	}
+	return bad, false
 }
 
 // short renders a bitmap for a failure message (huge ones are abbreviated).
@@ -102,9 +180,56 @@ func short(w []uint64) string {
 	return fmt.Sprintf("%#x ... (%d words)", w[:8], len(w))
 }
 
-// guarded returns a copy of p with spare capacity that holds canaries, and a function that reports a damaged canary.
-func guarded(p []int32) ([]int32, func() string) {
-	buf := make([]int32, len(p)+3)
+// shortList renders a position list for a failure message (long ones are abbreviated; the case file has all of it).
+func shortList(p []int32) string {
+	if len(p) <= 64 {
+		return fmt.Sprintf("%v", p)
+	}
+	return fmt.Sprintf("%v ... %v (%d positions)", p[:8], p[len(p)-4:], len(p))
+}
+
+// argList is shortList for a list argument: an empty one is named by the shape in which it was passed.
+func argList(p []int32, sel int) string {
+	if len(p) == 0 {
+		return []string{"[] (cap 3)", "nil", "[] (cap 0)", "nil"}[sel]
+	}
+	return shortList(p)
+}
+
+func shortSubs(subs [][]int32, sizes []int32) string {
+	n := 0
+	for _, s := range subs {
+		n += len(s)
+	}
+	if len(subs) <= 24 && n <= 200 {
+		return fmt.Sprintf("%v, %v", subs, sizes)
+	}
+	return fmt.Sprintf("%d segments with %d positions, the first %s of size %d (all of it in the case file)", len(subs), n, shortList(subs[0]), sizes[0])
+}
+
+// shapeSel derives the 2-bit shape selector of the i-th list argument of a case (see shaped).
+func shapeSel(shape uint32, i int) int {
+	if shape == 0 {
+		return 0
+	}
+	if i == 0 {
+		return int(shape & 3)
+	}
+	return int(vk.Mix(uint64(shape)<<20^uint64(i)) & 3)
+}
+
+// shaped returns the list the library is given - a private copy of p - and a function that reports damage.
+// Empty p: sel 0 = empty with spare capacity that holds canaries, 1 and 3 = nil, 2 = empty without capacity.
+// Non-empty p: sel 0..2 = spare capacity that holds canaries, 3 = exact-size copy.
+func shaped(p []int32, sel int) ([]int32, func() string) {
+	if len(p) == 0 && (sel == 1 || sel == 3) {
+		return nil, func() string { return "" }
+	}
+	spare := 3
+	if (len(p) == 0 && sel == 2) || (len(p) > 0 && sel == 3) {
+		spare = 0
+	}
+	buf := make([]int32, len(p)+spare)
 	copy(buf, p)
 	for i := len(p); i < len(buf); i++ {
 		buf[i] = int32(-0x0CA11AB1 - i)
@@ -141,10 +266,15 @@ func watchWords(what string, r []uint64) {
 	})
 }
 
+// quickToArrayWords: ToArray scans bit by bit (about 1 ns per bit); in the quick tier it is run on results of up to
+// 2^19 words (33 ms), beyond that only where the case asks for it (ToArr) or in the thorough tier.
+const quickToArrayWords = 1 << 19
+
 func checkOf(c Case) *vk.Failure {
-	pos, posOK := guarded(c.Positions)
+	pos, posOK := shaped(c.Positions, shapeSel(c.Shape, 0))
 	var got []uint64
-	if f := vk.Try(fmt.Sprintf("Of(%v, n=%v/%d)", c.Positions, c.HasN, c.N), func() {
+	ofArg := func() string { return argList(c.Positions, shapeSel(c.Shape, 0)) }
+	if f := vk.TryF(func() string { return fmt.Sprintf("Of(%s, n=%v/%d)", ofArg(), c.HasN, c.N) }, func() {
 		if c.HasN {
 			got = bitmap.Of(pos, c.N)
 		} else {
@@ -164,30 +294,27 @@ func checkOf(c Case) *vk.Failure {
 		need = 0
 	}
 	if int64(len(got)) != (need+63)/64 {
-		return vk.Failf("of-len", "Of(%v, n=%v/%d) has %d words, want %d", c.Positions, c.HasN, c.N, len(got), (need+63)/64)
+		return vk.Failf("of-len", "Of(%s, n=%v/%d) has %d words, want %d", ofArg(), c.HasN, c.N, len(got), (need+63)/64)
 	}
-	set := map[int]bool{}
-	strict := true
+	p64 := make([]int64, len(c.Positions))
 	for i, p := range c.Positions {
-		set[int(p)] = true
-		if i > 0 && c.Positions[i-1] >= p {
-			strict = false
-		}
+		p64[i] = int64(p)
 	}
-	if p, ok := bitsEqual(got, set); !ok {
-		return vk.Failf("of-bits", "Of(%v, n=%v/%d): bit %d is wrong (words %s)", c.Positions, c.HasN, c.N, p, short(got))
+	want, strict := sorted64(p64)
+	if p, ok := bitsMatch(got, want); !ok {
+		return vk.Failf("of-bits", "Of(%s, n=%v/%d): bit %d is wrong (words %s)", ofArg(), c.HasN, c.N, p, short(got))
 	}
-	if strict && (len(got) <= 1<<21 || vk.Pick(false, true)) { // (ToArray of a 2^25-word bitmap takes seconds: thorough only)
+	if strict && (len(got) <= quickToArrayWords || c.ToArr || vk.Pick(false, true)) {
 		var arr []int32
 		if f := vk.Try("ToArray(Of(l))", func() { arr = bitmap.ToArray(got) }); f != nil {
 			return f
 		}
 		if len(arr) != len(c.Positions) {
-			return vk.Failf("toarray-of", "ToArray(Of(%v)) = %v", c.Positions, arr)
+			return vk.Failf("toarray-of", "ToArray(Of(%s)) = %s", shortList(c.Positions), shortList(arr))
 		}
 		for i := range arr {
 			if arr[i] != c.Positions[i] {
-				return vk.Failf("toarray-of", "ToArray(Of(%v)) = %v", c.Positions, arr)
+				return vk.Failf("toarray-of", "ToArray(Of(%s)) = %s (entry %d is %d, want %d)", shortList(c.Positions), shortList(arr), i, arr[i], c.Positions[i])
 			}
 		}
 	}
@@ -204,7 +331,13 @@ var scratch vk.Scratch
 
 func checkBitmap(c Case) (f *vk.Failure) {
 	words := c.Words.Clone()
-	if reused := scratch.Reuse(vk.SumU64(c.Words)); reused {
+	if len(c.Words) == 0 && c.Shape != 0 {
+		// the empty bitmap: nil, or empty without capacity
+		words = nil
+		if c.Shape&1 == 0 {
+			words = []uint64{}
+		}
+	} else if reused := scratch.Reuse(vk.SumU64(c.Words)); reused {
 		words = scratch.U64(c.Words) // every other case: a reused buffer with guarded spare capacity
 		defer func() {
 			if msg := scratch.Check(); f == nil && msg != "" {
@@ -214,9 +347,9 @@ func checkBitmap(c Case) (f *vk.Failure) {
 	}
 	nbits := 64 * len(words)
 	var want []int32
-	for i := 0; i < nbits; i++ {
-		if bitOf(c.Words, i) == 1 {
-			want = append(want, int32(i))
+	for wi, w := range c.Words {
+		for ; w != 0; w &= w - 1 {
+			want = append(want, int32(64*wi+bits.TrailingZeros64(w)))
 		}
 	}
 	var arr []int32
@@ -224,11 +357,11 @@ func checkBitmap(c Case) (f *vk.Failure) {
 		return f
 	}
 	if len(arr) != len(want) {
-		return vk.Failf("toarray", "ToArray(%#x) has %d entries, want %d", c.Words, len(arr), len(want))
+		return vk.Failf("toarray", "ToArray(%s) has %d entries, want %d", short(c.Words), len(arr), len(want))
 	}
 	for i := range arr {
 		if arr[i] != want[i] {
-			return vk.Failf("toarray", "ToArray(%#x)[%d] = %d, want %d", c.Words, i, arr[i], want[i])
+			return vk.Failf("toarray", "ToArray(%s)[%d] = %d, want %d", short(c.Words), i, arr[i], want[i])
 		}
 	}
 	// Of(ToArray(b), 64*len) == b ; Of(ToArray(b)) == b minus trailing zero words
@@ -266,7 +399,7 @@ func checkBitmap(c Case) (f *vk.Failure) {
 			b = bitOf(c.Words, int(p))
 		}
 		var sg, sg1, g, g1 uint64
-		if f := vk.Try(fmt.Sprintf("SafeGet/SafeGet1(%d) on %d words", p, len(words)), func() {
+		if f := vk.TryF(func() string { return fmt.Sprintf("SafeGet/SafeGet1(%d) on %d words", p, len(words)) }, func() {
 			sg, sg1 = bitmap.SafeGet(words, p), bitmap.SafeGet1(words, p)
 		}); f != nil {
 			f.Kind = "safeget-panic"
@@ -277,11 +410,11 @@ func checkBitmap(c Case) (f *vk.Failure) {
 			return vk.Failf("safeget", "SafeGet/SafeGet1(bm of %d words, %d) = %#x/%d, want %#x/%d", len(words), p, sg, sg1, wantInPlace, b)
 		}
 		if inside {
-			if f := vk.Try(fmt.Sprintf("Get/Get1(%d)", p), func() { g, g1 = bitmap.Get(words, p), bitmap.Get1(words, p) }); f != nil {
+			if f := vk.TryF(func() string { return fmt.Sprintf("Get/Get1(%d) on %d words", p, len(words)) }, func() { g, g1 = bitmap.Get(words, p), bitmap.Get1(words, p) }); f != nil {
 				return f
 			}
 			if g != wantInPlace || g1 != b {
-				return vk.Failf("get", "Get/Get1(bm, %d) = %#x/%d, want %#x/%d", p, g, g1, wantInPlace, b)
+				return vk.Failf("get", "Get/Get1(bm of %d words, %d) = %#x/%d, want %#x/%d", len(words), p, g, g1, wantInPlace, b)
 			}
 		}
 		return nil
@@ -302,6 +435,28 @@ func checkBitmap(c Case) (f *vk.Failure) {
 				return f
 			}
 		}
+	} else {
+		// a longer bitmap: the first and the last two words bit by bit, and up to 512 of its ones spread over the
+		// whole length, each with the position after it (mostly a zero)
+		for p := 0; p < 128; p++ {
+			if f := probe(int32(p)); f != nil {
+				return f
+			}
+			if f := probe(int32(nbits - 1 - p)); f != nil {
+				return f
+			}
+		}
+		step := len(want)/512 + 1
+		for i := 0; i < len(want); i += step {
+			if f := probe(want[i]); f != nil {
+				return f
+			}
+			if q := want[i] + 1; int(q) < nbits {
+				if f := probe(q); f != nil {
+					return f
+				}
+			}
+		}
 	}
 	for i := range words {
 		if words[i] != c.Words[i] {
@@ -312,7 +467,8 @@ func checkBitmap(c Case) (f *vk.Failure) {
 }
 
 // checkMaxBitmap: inspection of the largest bitmap whose positions fit an int32 (sparse oracle from its description).
-func checkMaxBitmap(v int) *vk.Failure {
+func checkMaxBitmap(c Case) *vk.Failure {
+	v := c.Max
 	if v < 0 || v >= gen.MaxVariants {
 		return nil
 	}
@@ -344,7 +500,7 @@ func checkMaxBitmap(v int) *vk.Failure {
 			}
 		}
 	}
-	if vk.Pick(false, true) { // bit-by-bit over 2^31 positions: seconds, thorough only
+	if c.ToArr || vk.Pick(false, true) { // bit by bit over 2^31 positions, 2 s: the quick tier for one description (ToArr), thorough for all
 		want := gen.MaxOnes()
 		var arr []int32
 		if f := vk.Try("ToArray(2^25 words)", func() { arr = bitmap.ToArray(words) }); f != nil {
@@ -366,44 +522,64 @@ func checkMaxBitmap(v int) *vk.Failure {
 }
 
 func checkOfMany(c Case) *vk.Failure {
-	subs := make([][]int32, len(c.Subs))
+	if len(c.Subs) != len(c.Sizes) {
+		return nil // a history is a sequence of (positions, size) pairs: anything else is outside the domain (never generated)
+	}
+	// no segment at all: the two (empty) arguments reach the library as nil or as empty non-nil slices
+	var subs [][]int32
+	var sizes []int32
+	if len(c.Subs) > 0 || c.Shape&1 == 0 {
+		subs = make([][]int32, len(c.Subs))
+	}
+	if len(c.Sizes) > 0 || c.Shape&2 == 0 {
+		sizes = append(make([]int32, 0, len(c.Sizes)), c.Sizes...)
+	}
 	oks := make([]func() string, len(c.Subs))
 	for i := range c.Subs {
-		subs[i], oks[i] = guarded(c.Subs[i])
+		subs[i], oks[i] = shaped(c.Subs[i], shapeSel(c.Shape, i+1))
 	}
-	sizes := append([]int32(nil), c.Sizes...)
 	var got []uint64
-	if f := vk.Try(fmt.Sprintf("OfMany(%v, %v)", c.Subs, c.Sizes), func() { got = bitmap.OfMany(subs, sizes) }); f != nil {
+	if f := vk.TryF(func() string { return fmt.Sprintf("OfMany(%s)", shortSubs(c.Subs, c.Sizes)) }, func() { got = bitmap.OfMany(subs, sizes) }); f != nil {
 		return f
 	}
-	set := map[int]bool{}
+	var all []int64
 	base, maxbit := int64(0), int64(-1)
 	for k := range c.Subs {
 		for _, p := range c.Subs[k] {
 			a := base + int64(p)
-			set[int(a)] = true
+			all = append(all, a)
 			if a > maxbit {
 				maxbit = a
 			}
 		}
 		base += int64(c.Sizes[k])
 	}
+	all, _ = sorted64(all)
+	// "the bitmap Of would build from the shifted positions ... with enough words for every bit": the bits are compared
+	// exactly (bitsMatch: the listed ones 1, every other bit of every returned word 0), the word count from below only.
+	// The bitmap is the concatenation of segments of sizes[k] bits each, so its bits are 0 .. sum(sizes)-1 plus every
+	// listed position beyond that, and each of them needs its word (the same reading as for Builder.Words below, where
+	// Offset - that very sum - must be covered). The exact count - Of's, with the sum as n - is what the library returns
+	// today; trailing zero words beyond it do not contradict the statement ("enough", and bitmaps are equal "up to
+	// trailing zero words"), so no upper bound is asserted.
 	need := base
 	if maxbit+1 > need {
 		need = maxbit + 1
 	}
-	// "enough words for every bit": the exact count (Of's, with the sum of the sizes as n) is what the library
-	// returns today, the statement only needs every bit to have its word; bitsEqual below compares all bits
-	_ = need
-	if int64(len(got)) < (maxbit+1+63)/64 {
-		return vk.Failf("ofmany-len", "OfMany(%v, %v) has %d words, too few for bit %d", c.Subs, c.Sizes, len(got), maxbit)
+	if int64(len(got))*64 < need {
+		return vk.Failf("ofmany-len", "OfMany(%s) has %d words, too few for the %d bits of its segments (sum of the sizes %d, highest listed bit %d)", shortSubs(c.Subs, c.Sizes), len(got), need, base, maxbit)
 	}
-	if p, ok := bitsEqual(got, set); !ok {
-		return vk.Failf("ofmany-bits", "OfMany(%v, %v): bit %d is wrong (words %s)", c.Subs, c.Sizes, p, short(got))
+	if p, ok := bitsMatch(got, all); !ok {
+		return vk.Failf("ofmany-bits", "OfMany(%s): bit %d is wrong (words %s)", shortSubs(c.Subs, c.Sizes), p, short(got))
 	}
 	for i, ok := range oks {
 		if msg := ok(); msg != "" {
-			return vk.Failf("ofmany-mutates", "OfMany(%v, %v), sub-list %d: %s", c.Subs, c.Sizes, i, msg)
+			return vk.Failf("ofmany-mutates", "OfMany(%s), sub-list %d: %s", shortSubs(c.Subs, c.Sizes), i, msg)
+		}
+	}
+	for i := range sizes {
+		if sizes[i] != c.Sizes[i] {
+			return vk.Failf("ofmany-mutates", "OfMany(%s): sizes[%d] was changed to %d", shortSubs(c.Subs, c.Sizes), i, sizes[i])
 		}
 	}
 	if len(got) <= 1<<12 {
@@ -413,58 +589,63 @@ func checkOfMany(c Case) *vk.Failure {
 }
 
 func checkBuilder(c Case) *vk.Failure {
+	if c.Prealloc < 0 {
+		return nil // a pre-sized builder has n >= 0 bits (never generated otherwise)
+	}
 	var b *bitmap.Builder
 	if f := vk.Try("NewBuilder", func() { b = bitmap.NewBuilder(c.Prealloc) }); f != nil {
 		return f
 	}
-	set := map[int]bool{}
-	offset, maxbit := int64(0), int64(-1)
+	model := newWordModel()
+	offset := int64(0)
 	for si, s := range c.Steps {
 		switch s.Kind {
 		case "extend":
-			pos, posOK := guarded(s.Positions)
-			if f := vk.Try(fmt.Sprintf("step %d: Extend(%v, %d) at Offset %d", si, s.Positions, s.Size, offset), func() { b.Extend(pos, s.Size) }); f != nil {
+			pos, posOK := shaped(s.Positions, shapeSel(c.Shape, si))
+			if f := vk.TryF(func() string {
+				return fmt.Sprintf("step %d: Extend(%s, %d) at Offset %d", si, argList(s.Positions, shapeSel(c.Shape, si)), s.Size, offset)
+			}, func() { b.Extend(pos, s.Size) }); f != nil {
 				return f
 			}
 			if msg := posOK(); msg != "" {
-				return vk.Failf("extend-mutates", "step %d Extend(%v, %d): %s", si, s.Positions, s.Size, msg)
+				return vk.Failf("extend-mutates", "step %d Extend(%s, %d): %s", si, shortList(s.Positions), s.Size, msg)
 			}
 			for _, p := range s.Positions {
-				a := offset + int64(p)
-				set[int(a)] = true
-				if a > maxbit {
-					maxbit = a
-				}
+				model.set(offset + int64(p))
 			}
 			offset += int64(s.Size)
 		default:
 			if s.Value != 0 && s.Value != 1 {
 				return nil // a bit value is 0 or 1: anything else is outside the domain (never generated)
 			}
-			if f := vk.Try(fmt.Sprintf("step %d: Set(%d, %d)", si, s.Pos, s.Value), func() { b.Set(s.Pos, s.Value) }); f != nil {
+			if f := vk.TryF(func() string { return fmt.Sprintf("step %d: Set(%d, %d)", si, s.Pos, s.Value) }, func() { b.Set(s.Pos, s.Value) }); f != nil {
 				return f
 			}
 			if s.Value == 1 {
-				set[int(s.Pos)] = true
-				if int64(s.Pos) > maxbit {
-					maxbit = int64(s.Pos)
-				}
+				model.set(int64(s.Pos))
 			}
 			if offset <= int64(s.Pos) {
 				offset = int64(s.Pos) + 1
 			}
 		}
 		if int64(b.Offset) != offset {
-			return vk.Failf("builder-offset", "after step %d (%+v): Offset = %d, want %d", si, s, b.Offset, offset)
+			return vk.Failf("builder-offset", "after step %d (%s): Offset = %d, want %d", si, stepString(s, shapeSel(c.Shape, si)), b.Offset, offset)
 		}
-		if p, ok := bitsEqual(b.Words, set); !ok {
-			return vk.Failf("builder-bits", "after step %d (%+v): bit %d is wrong (words %#x)", si, s, p, b.Words)
+		if p, ok := model.diff(b.Words); !ok {
+			return vk.Failf("builder-bits", "after step %d (%s): bit %d is wrong (words %s)", si, stepString(s, shapeSel(c.Shape, si)), p, short(b.Words))
 		}
-		if int64(64*len(b.Words)) < offset || int64(64*len(b.Words)) < maxbit+1 {
-			return vk.Failf("builder-words", "after step %d (%+v): %d words do not cover Offset %d / highest bit %d", si, s, len(b.Words), offset, maxbit)
+		if int64(64*len(b.Words)) < offset || int64(64*len(b.Words)) < model.maxbit+1 {
+			return vk.Failf("builder-words", "after step %d (%s): %d words do not cover Offset %d / highest bit %d", si, stepString(s, shapeSel(c.Shape, si)), len(b.Words), offset, model.maxbit)
 		}
 	}
 	return nil
+}
+
+func stepString(s Step, sel int) string {
+	if s.Kind == "extend" {
+		return fmt.Sprintf("Extend(%s, %d)", argList(s.Positions, sel), s.Size)
+	}
+	return fmt.Sprintf("Set(%d, %d)", s.Pos, s.Value)
 }
 
 func check(c Case) *vk.Failure {
@@ -476,7 +657,7 @@ func check(c Case) *vk.Failure {
 	case "ofmany":
 		return checkOfMany(c)
 	case "maxbitmap":
-		return checkMaxBitmap(c.Max)
+		return checkMaxBitmap(c)
 	}
 	return checkBuilder(c)
 }
@@ -490,6 +671,9 @@ func classify(c Case) (bool, []string) {
 	case "of":
 		n := len(c.Positions)
 		nt := n >= 2 && c.Positions[n-1]/64 != c.Positions[0]/64
+		if n == 0 {
+			labels = append(labels, []string{"empty-list:spare-capacity", "empty-list:nil", "empty-list:no-capacity", "empty-list:nil"}[shapeSel(c.Shape, 0)])
+		}
 		if c.HasN {
 			last := int32(-1)
 			if n > 0 {
@@ -510,17 +694,27 @@ func classify(c Case) (bool, []string) {
 		}
 		return nt, labels
 	case "maxbitmap":
+		if c.ToArr {
+			labels = append(labels, "toarray-of-2^25-words")
+		}
 		return true, labels
 	case "bitmap":
 		cnt, first, last := 0, -1, -1
-		for i := 0; i < 64*len(c.Words); i++ {
-			if bitOf(c.Words, i) == 1 {
-				cnt++
-				if first < 0 {
-					first = i
-				}
-				last = i
+		for wi, w := range c.Words {
+			if w == 0 {
+				continue
 			}
+			cnt += bits.OnesCount64(w)
+			if first < 0 {
+				first = 64*wi + bits.TrailingZeros64(w)
+			}
+			last = 64*wi + 63 - bits.LeadingZeros64(w)
+		}
+		if len(c.Words) == 0 && c.Shape != 0 {
+			labels = append(labels, []string{"empty-bitmap:no-capacity", "empty-bitmap:nil"}[c.Shape&1])
+		}
+		if len(c.Words) > 12 {
+			labels = append(labels, "bitmap-words:"+magnitude(int64(len(c.Words))))
 		}
 		return cnt >= 2 && first/64 != last/64, labels
 	case "ofmany":
@@ -528,18 +722,24 @@ func classify(c Case) (bool, []string) {
 		base := int64(0)
 		for k := range c.Subs {
 			for _, p := range c.Subs[k] {
-				if p >= c.Sizes[k] {
+				if k < len(c.Sizes) && p >= c.Sizes[k] {
 					over = true
 				}
 			}
 			if base%64 != 0 {
 				cross = true
 			}
-			base += int64(c.Sizes[k])
+			if k < len(c.Sizes) {
+				base += int64(c.Sizes[k])
+			}
 		}
 		if over {
 			labels = append(labels, "position>=size")
 		}
+		if len(c.Subs) == 0 {
+			labels = append(labels, "no-segment")
+		}
+		labels = append(labels, "sum-of-sizes:"+magnitude(base))
 		return len(c.Subs) >= 2 && (over || cross), labels
 	}
 	segs, over, cross, sets := 0, false, false, 0
@@ -569,15 +769,50 @@ func classify(c Case) (bool, []string) {
 	if sets > 0 {
 		labels = append(labels, "has-set")
 	}
+	labels = append(labels, "final-offset:"+magnitude(off))
 	return segs >= 2 && (over || cross), labels
+}
+
+// magnitude names the size class of a sum / offset / length for the evidence histogram (4 octaves per class).
+func magnitude(v int64) string {
+	if v <= 0 {
+		return "0"
+	}
+	k := (bits.Len64(uint64(v)) - 1) &^ 3
+	return fmt.Sprintf("[2^%d,2^%d)", k, k+4)
 }
 
 // ---------------------------------------------------------------- generators
 
 var boundaryPos = []int32{0, 1, 62, 63, 64, 65, 127, 128, 129, 191, 192, 255, 256}
 
+// logU draws a size-like quantity whose MAGNITUDE is uniform, so that no octave between the small values and
+// 2^maxBits is left out: 0 or 1, or a value of the octave [2^k, 2^(k+1)), k uniform in [0, maxBits); three times in
+// eight one of 2^k-1, 2^k, 2^k+1.
+func logU(t *rapid.T, maxBits int, label string) int64 {
+	k := gen.Uniform(t, maxBits+1, label+".octave")
+	if k == 0 {
+		return int64(gen.Uniform(t, 2, label+".01"))
+	}
+	base := int64(1) << uint(k-1)
+	switch gen.Uniform(t, 8, label+".edge") {
+	case 0:
+		return base - 1
+	case 1:
+		return base
+	case 2:
+		return base + 1
+	}
+	return base + int64(gen.U64(t, label+".in")%uint64(base))
+}
+
 func genAscending(t *rapid.T, maxN int, maxGap int, label string) []int32 {
-	n := gen.Len(t, maxN, label+".n")
+	return genAscendingN(t, gen.Len(t, maxN, label+".n"), maxGap, 0, math.MaxInt32-1, label)
+}
+
+// genAscendingN draws n strictly ascending positions (fewer if limit is reached); wideBits > 0 adds gaps of
+// log-uniform magnitude below 2^wideBits.
+func genAscendingN(t *rapid.T, n int, maxGap int, wideBits int, limit int64, label string) []int32 {
 	out := make([]int32, 0, n)
 	cur := int64(-1)
 	for i := 0; i < n; i++ {
@@ -595,18 +830,27 @@ func genAscending(t *rapid.T, maxN int, maxGap int, label string) []int32 {
 			}
 		case 3:
 			gap = 1 + int64(gen.U64(t, label+".big")%uint64(maxGap))
+		case 4:
+			if wideBits > 0 {
+				gap = 1 + logU(t, wideBits, label+".wide")
+				break
+			}
+			fallthrough
 		default:
 			gap = 1 + int64(gen.Uniform(t, 70, label+".g"))
 		}
 		cur += gap
+		if cur > limit {
+			break
+		}
 		out = append(out, int32(cur))
 	}
 	return out
 }
 
 func genOf(t *rapid.T) Case {
-	c := Case{Op: "of"}
-	switch gen.Uniform(t, 5, "pclass") {
+	c := Case{Op: "of", Shape: uint32(gen.U64(t, "shape"))}
+	switch gen.Uniform(t, 6, "pclass") {
 	case 0:
 		c.Class = "boundary-subset"
 		for _, p := range boundaryPos {
@@ -629,6 +873,12 @@ func genOf(t *rapid.T) Case {
 	case 2:
 		c.Class = "large-gaps"
 		c.Positions = genAscending(t, 20, 1<<20, "pos")
+	case 3:
+		// long lists: the number of positions has a log-uniform magnitude between the short random lists (<= 60) and the
+		// grid's 65535; small gaps, so that the result stays a few thousand words
+		c.Class = "long-list"
+		n := 61 + int(logU(t, vk.Pick(12, 16), "count"))
+		c.Positions = genAscendingN(t, n, 1+gen.Uniform(t, 100, "maxgap"), 0, math.MaxInt32-1, "pos")
 	default:
 		c.Class = "ascending"
 		c.Positions = genAscending(t, 60, 300, "pos")
@@ -659,47 +909,131 @@ func genOf(t *rapid.T) Case {
 	return c
 }
 
+// bigWords expands the description of a bitmap of n words (a pure function of its arguments); with tail the top bit
+// of the last word is 1, so that the very end of the bitmap matters.
+func bigWords(n int, key uint64, style int, tail bool) vk.Words {
+	w := vk.Words(gen.BigSpec{N: n, Key: key, Style: style}.Expand())
+	if tail && n > 0 {
+		w[n-1] |= 1 << 63
+	}
+	return w
+}
+
+var bigStyles = []string{"big-uniform", "big-sparse", "big-dense", "big-islands", "big-ones", "big-one-bit-per-word"}
+
 func genBitmap(t *rapid.T) Case {
-	w, style := gen.Bitmap(t, vk.Pick(12, 200), "bm")
+	var w vk.Words
+	var style string
+	if gen.Chance(t, 1, 6, "big") {
+		// 13 .. 4108 words (thorough 65548): the lengths between gen.Bitmap's 12 words and the grid's 4095 (the grid
+		// itself sweeps the lengths up to 16383 words)
+		n := 13 + int(logU(t, vk.Pick(12, 16), "words"))
+		st := gen.Uniform(t, len(bigStyles), "bigstyle")
+		w, style = bigWords(n, gen.U64(t, "key"), st, gen.Chance(t, 1, 2, "tail")), bigStyles[st]
+	} else {
+		var ws []uint64
+		ws, style = gen.Bitmap(t, vk.Pick(12, 200), "bm")
+		w = ws
+	}
 	nbits := 64 * len(w)
 	var probes []int32
 	for i := 0; i < 16; i++ {
-		switch gen.Uniform(t, 3, "pclass") {
+		switch gen.Uniform(t, 4, "pclass") {
 		case 0:
 			probes = append(probes, int32(gen.U64(t, "any")))
 		case 1:
 			probes = append(probes, int32(nbits)+int32(gen.Uniform(t, 200, "over"))-100)
+		case 2:
+			if nbits > 0 { // the magnitude of the probe is uniform (a long bitmap is not only probed far from its start)
+				probes = append(probes, int32(logU(t, 31, "mag")%int64(nbits)))
+			}
 		default:
 			if nbits > 0 {
 				probes = append(probes, int32(gen.Uniform(t, nbits, "in")))
 			}
 		}
 	}
-	return Case{Op: "bitmap", Words: w, Probes: probes, Class: style}
+	return Case{Op: "bitmap", Words: w, Probes: probes, Class: style, Shape: uint32(gen.U64(t, "shape"))}
 }
 
-// genSegments cuts one global ascending list of absolute positions into
+// genOfMany cuts one global ascending list of absolute positions into
 // segments so that the concatenation of the shifted lists stays ascending
 // (Of's documented input) while positions >= size still occur.
 func genOfMany(t *rapid.T) Case {
-	nseg := 1 + gen.Len(t, vk.Pick(11, 60), "nseg")
+	c := Case{Op: "ofmany", Shape: uint32(gen.U64(t, "shape"))}
+	var nseg, nabs, wideBits int
+	var sizeOf func() int32
+	smallSize := func() int32 {
+		switch gen.Uniform(t, 6, "sclass") {
+		case 0:
+			return 0
+		case 1:
+			return 64
+		case 2:
+			return int32(1 + gen.Uniform(t, 5, "s"))
+		}
+		return int32(gen.Uniform(t, 200, "s"))
+	}
+	switch gen.Uniform(t, 8, "segclass") {
+	case 0:
+		// no segment (the empty sequence of segments), or a single one
+		c.Class = "segments:0-1"
+		nseg, nabs, sizeOf = gen.Uniform(t, 2, "nseg01"), 5, smallSize
+	case 1, 2:
+		// segment sizes of log-uniform magnitude: the running sum takes values in every octave up to 2^27
+		c.Class = "segments:wide"
+		nseg, nabs, wideBits = 1+gen.Len(t, 11, "nseg"), gen.Len(t, vk.Pick(40, 200), "abs.n"), vk.Pick(24, 26)
+		sizeOf = func() int32 {
+			if gen.Chance(t, 1, 3, "small") {
+				return smallSize() // element-wise mix: small and huge segments in one history
+			}
+			return int32(logU(t, wideBits, "size"))
+		}
+	case 3:
+		// many small segments (offsets accumulated over many segments), now and then a larger one among them
+		c.Class = "segments:many"
+		nseg = 13 + int(logU(t, vk.Pick(9, 12), "nseg"))
+		nabs = int(logU(t, vk.Pick(10, 13), "nabs"))
+		sizeOf = func() int32 {
+			if gen.Chance(t, 1, 64, "large") {
+				return int32(logU(t, 16, "size"))
+			}
+			return smallSize()
+		}
+	default:
+		c.Class = "segments:few-small"
+		nseg, nabs, sizeOf = 1+gen.Len(t, vk.Pick(11, 60), "nseg"), gen.Len(t, vk.Pick(40, 200), "abs.n"), smallSize
+	}
+	if nseg == 0 {
+		return c
+	}
 	sizes := make([]int32, nseg)
 	bases := make([]int64, nseg+1)
 	for k := range sizes {
-		switch gen.Uniform(t, 6, "sclass") {
-		case 0:
-			sizes[k] = 0
-		case 1:
-			sizes[k] = 64
-		case 2:
-			sizes[k] = int32(1 + gen.Uniform(t, 5, "s"))
-		default:
-			sizes[k] = int32(gen.Uniform(t, 200, "s"))
-		}
+		sizes[k] = sizeOf()
 		bases[k+1] = bases[k] + int64(sizes[k])
 	}
-	abs := genAscending(t, vk.Pick(40, 200), 150, "abs")
 	subs := make([][]int32, nseg)
+	c.Subs, c.Sizes = subs, sizes
+	// absolute positions: spread over the whole range of the segments (and a little beyond the sum of the sizes)
+	total := bases[nseg]
+	limit := min(total+int64(gen.Uniform(t, 300, "beyond")), math.MaxInt32-1)
+	maxGap := 150
+	if wideBits == 0 && nabs > 0 && total > int64(25*nabs) {
+		maxGap = int(6 * total / int64(nabs))
+	}
+	abs := genAscendingN(t, nabs, maxGap, wideBits, limit, "abs")
+	if gen.Chance(t, 1, 2, "tail") {
+		// the end of the last segments is not left empty: up to three more positions just before / behind the sum of the sizes
+		p := total - int64(gen.Uniform(t, 130, "tail.back"))
+		if len(abs) > 0 && p <= int64(abs[len(abs)-1]) {
+			p = int64(abs[len(abs)-1]) + 1
+		}
+		for j := 0; j < 3 && p >= 0 && p <= limit; j++ {
+			abs = append(abs, int32(p))
+			p += 1 + int64(gen.Uniform(t, 70, "tail.gap"))
+		}
+	}
 	cur := 0
 	for _, a := range abs {
 		// the segment pointer may advance to any later segment whose base is <= a
@@ -733,24 +1067,53 @@ func genOfMany(t *rapid.T) Case {
 			subs[k] = []int32{}
 		}
 	}
-	return Case{Op: "ofmany", Subs: subs, Sizes: sizes}
+	return c
 }
 
 func genBuilder(t *rapid.T) Case {
-	c := Case{Op: "builder", Prealloc: rapid.SampledFrom([]int32{0, 64, 1000, 63, 65}).Draw(t, "prealloc")}
+	c := Case{Op: "builder", Prealloc: rapid.SampledFrom([]int32{0, 64, 1000, 63, 65}).Draw(t, "prealloc"), Shape: uint32(gen.U64(t, "shape"))}
 	n := 1 + gen.Len(t, vk.Pick(11, 200), "steps")
+	wideBits, sparse := 0, 1 // a size / position of log-uniform magnitude below 2^wideBits is drawn once in `sparse` steps
+	switch gen.Uniform(t, 8, "hclass") {
+	case 0, 1:
+		// sizes and Set positions of log-uniform magnitude: Offset takes values in every octave up to 2^23 (thorough 2^27)
+		c.Class = "history:wide"
+		wideBits = vk.Pick(20, 24)
+		n = 1 + gen.Len(t, 11, "steps.wide")
+		if gen.Chance(t, 1, 2, "presized") {
+			c.Prealloc = int32(logU(t, wideBits+2, "prealloc.wide"))
+		}
+	case 2:
+		// long histories: offsets accumulated over many small segments, now and then a large one among them
+		c.Class = "history:long"
+		n = 30 + int(logU(t, vk.Pick(8, 11), "steps.long")) + gen.Uniform(t, 60, "steps+")
+		wideBits, sparse = 14, 40
+	default:
+		c.Class = "history:few-small"
+	}
+	offset := int64(0)
 	for i := 0; i < n; i++ {
+		wide := wideBits > 0 && gen.Uniform(t, sparse, "wide") == 0
 		if gen.Chance(t, 1, 4, "set") {
 			var pos int32
-			switch gen.Uniform(t, 3, "posclass") {
+			switch gen.Uniform(t, 4, "posclass") {
 			case 0:
 				pos = int32(gen.Uniform(t, 130, "p"))
 			case 1:
 				pos = rapid.SampledFrom(boundaryPos).Draw(t, "pb")
+			case 2:
+				// around the current Offset: behind it, at it, ahead of it
+				pos = int32(max(offset+int64(gen.Uniform(t, 200, "rel"))-70, 0))
 			default:
 				pos = int32(gen.Uniform(t, 3000, "p"))
+				if wide {
+					pos = int32(logU(t, wideBits, "pwide"))
+				}
 			}
 			c.Steps = append(c.Steps, Step{Kind: "set", Pos: pos, Value: int32(gen.Uniform(t, 2, "value"))})
+			if offset <= int64(pos) {
+				offset = int64(pos) + 1
+			}
 			continue
 		}
 		var size int32
@@ -763,17 +1126,49 @@ func genBuilder(t *rapid.T) Case {
 			size = int32(1 + gen.Uniform(t, 5, "s"))
 		default:
 			size = int32(gen.Uniform(t, 200, "s"))
-		}
-		pos := genAscending(t, 8, 60, "pos")
-		// keep positions near the segment: inside, or a little beyond size
-		lim := int64(size) + int64(gen.Uniform(t, 80, "slack"))
-		var kept []int32
-		for _, p := range pos {
-			if int64(p) <= lim {
-				kept = append(kept, p)
+			if wide {
+				size = int32(logU(t, wideBits, "swide"))
 			}
 		}
+		var kept []int32
+		if size < 300 {
+			pos := genAscending(t, 8, 60, "pos")
+			// keep positions near the segment: inside, or a little beyond size
+			lim := int64(size) + int64(gen.Uniform(t, 80, "slack"))
+			for _, p := range pos {
+				if int64(p) <= lim {
+					kept = append(kept, p)
+				}
+			}
+		} else {
+			// a large segment: positions at its start, anywhere inside, at its very end (size-1-d) and beyond it (size+d:
+			// the first bits of what follows, positions >= size)
+			cnt := gen.Len(t, 8, "pos.n")
+			if gen.Chance(t, 1, 8, "longlist") {
+				cnt = int(logU(t, vk.Pick(12, 14), "pos.long")) // (a long position list in one Extend)
+			}
+			seen := map[int32]bool{}
+			for j := 0; j < cnt; j++ {
+				var p int64
+				switch gen.Uniform(t, 4, "where") {
+				case 0:
+					p = int64(gen.Uniform(t, 130, "lo"))
+				case 1:
+					p = int64(size) - 1 - int64(gen.Uniform(t, 130, "hi"))
+				case 2:
+					p = int64(size) + int64(gen.Uniform(t, 130, "over"))
+				default:
+					p = int64(gen.U64(t, "in") % uint64(size))
+				}
+				if p >= 0 && !seen[int32(p)] {
+					seen[int32(p)] = true
+					kept = append(kept, int32(p))
+				}
+			}
+			sort.Slice(kept, func(i, j int) bool { return kept[i] < kept[j] })
+		}
 		c.Steps = append(c.Steps, Step{Kind: "extend", Positions: kept, Size: size})
+		offset += int64(size)
 	}
 	return c
 }
@@ -792,6 +1187,65 @@ func genCase(t *rapid.T) Case {
 
 func TestRegress(t *testing.T) { checker.Regress(t) }
 
+// between returns a value inside the octave (2^k, 2^(k+1)) that is a pure function of (k, i).
+func between(k, i int) int64 {
+	if k < 2 {
+		return int64(1) << uint(k)
+	}
+	return int64(1)<<uint(k) + 1 + int64(vk.Mix(uint64(k)*1000+uint64(i))%uint64(int64(1)<<uint(k)-2))
+}
+
+// octave lists 2^k-1, 2^k, 2^k+1 and `extra` values inside (2^k, 2^(k+1)).
+func octave(k, extra int) []int64 {
+	vs := []int64{int64(1)<<uint(k) - 1, int64(1) << uint(k), int64(1)<<uint(k) + 1}
+	for i := 0; i < extra; i++ {
+		vs = append(vs, between(k, i))
+	}
+	return vs
+}
+
+// ofManySum: OfMany whose running sum is `sum` (>= 3) in front of the segment that holds most positions: three segments
+// make up the sum (the first and the last bit of that range are set), then a segment of 70 bits with positions at its start,
+// its end and beyond it, then an empty segment of 200 bits and one of 0 bits (words that only the sizes ask for).
+func ofManySum(sum int64, i int, class string) Case {
+	a := sum / 3
+	b := int64(vk.Mix(uint64(sum)+uint64(i)) % uint64(sum-a+1))
+	third := []int32{}
+	if sum-a-b > 0 {
+		third = []int32{int32(sum - a - b - 1)}
+	}
+	return Case{Op: "ofmany", Class: class, Shape: uint32(vk.Mix(uint64(sum)) >> 7),
+		Subs:  [][]int32{{0}, {}, third, {0, 5, 69, 70, 133}, {}, {}},
+		Sizes: []int32{int32(a), int32(b), int32(sum - a - b), 70, 200, 0}}
+}
+
+// builderSize: a history around one large segment of `size` bits: a small segment first (so that Offset is not word
+// aligned), the large one with positions at its start, inside, at its very end and beyond it, Set behind / ahead of
+// Offset, an empty large segment, and positions after that.
+func builderSize(size int64, i int, prealloc int32, class string) Case {
+	s := int32(size)
+	in := int32(vk.Mix(uint64(size)*7+uint64(i)) % uint64(size))
+	pos := []int32{0, in, s - 1, s, s + 64}
+	sort.Slice(pos, func(i, j int) bool { return pos[i] < pos[j] })
+	var uniq []int32
+	for j, p := range pos {
+		if j == 0 || p != pos[j-1] {
+			uniq = append(uniq, p)
+		}
+	}
+	off := int64(37) + size
+	return Case{Op: "builder", Class: class, Prealloc: prealloc, Shape: uint32(vk.Mix(uint64(size)) >> 9), Steps: []Step{
+		{Kind: "extend", Positions: []int32{3, 36}, Size: 37},
+		{Kind: "extend", Positions: uniq, Size: s},
+		{Kind: "set", Pos: int32(off - 2), Value: 1},
+		{Kind: "set", Pos: int32(off + 70), Value: 0},
+		{Kind: "set", Pos: int32(off + 200), Value: 1},
+		{Kind: "extend", Positions: nil, Size: s},
+		{Kind: "extend", Positions: []int32{1, 63, 64}, Size: 3},
+		{Kind: "set", Pos: in, Value: 1},
+	}}
+}
+
 func TestGrid(t *testing.T) {
 	vk.SetPhase("grid")
 	pool := []int32{0, 1, 62, 63, 64, 65, 127, 128}
@@ -808,6 +1262,21 @@ func TestGrid(t *testing.T) {
 			checker.Run(t, Case{Op: "of", Positions: pos, HasN: true, N: n, Class: "grid"})
 		}
 	}
+	// the empty list and the empty bitmap in every shape (nil, empty with and without capacity); no segment; no step
+	for shape := uint32(0); shape < 4; shape++ {
+		checker.Run(t, Case{Op: "of", Shape: shape, Class: "grid-empty"})
+		for _, n := range []int32{math.MinInt32, -1, 0, 1, 64, 65, 1000, 65537} {
+			checker.Run(t, Case{Op: "of", HasN: true, N: n, Shape: shape, Class: "grid-empty"})
+		}
+		checker.Run(t, Case{Op: "bitmap", Shape: shape, Class: "grid-empty"})
+		checker.Run(t, Case{Op: "ofmany", Shape: shape, Class: "grid-no-segment"})
+		checker.Run(t, Case{Op: "builder", Prealloc: int32(shape) * 32, Class: "grid-no-step"})
+	}
+	for shape := uint32(1); shape <= 64; shape++ { // segments without positions: nil / empty sub-lists mixed, sizes that alone ask for words
+		checker.Run(t, Case{Op: "ofmany", Subs: [][]int32{{}, {}}, Sizes: []int32{int32(shape), 64}, Shape: shape, Class: "grid-empty-segments"})
+		checker.Run(t, Case{Op: "ofmany", Subs: [][]int32{{1}, {}, {}}, Sizes: []int32{64, int32(shape), 0}, Shape: shape, Class: "grid-empty-segments"})
+		checker.Run(t, Case{Op: "ofmany", Subs: [][]int32{{}}, Sizes: []int32{int32(shape)}, Shape: shape, Class: "grid-empty-segments"})
+	}
 	// long lists and bitmaps (size thresholds)
 	for _, n := range []int{65535, 65536, 65537, 200001} {
 		for _, stride := range []int{1, 3, 64, 129} {
@@ -822,7 +1291,46 @@ func TestGrid(t *testing.T) {
 		for i := range w {
 			w[i] = vk.Mix(uint64(i)+uint64(n)) & vk.Mix(uint64(i)*3)
 		}
-		checker.Run(t, Case{Op: "bitmap", Words: w, Probes: []int32{0, int32(64*len(w)) - 1, 65536, 65535}, Class: "grid-long"})
+		runB := func() {
+			checker.Run(t, Case{Op: "bitmap", Words: w, Probes: []int32{0, int32(64*len(w)) - 1, 65536, 65535}, Class: "grid-long"})
+		}
+		if n >= 65537 {
+			vk.ProcsSweep(runB) // (4096 and 12500 words: under every scheduler width of the procs process)
+		} else {
+			runB()
+		}
+	}
+	// list lengths and bitmap lengths without holes: 2^k-1, 2^k, 2^k+1 and two lengths inside every octave, the last
+	// word always occupied; from 128 elements on the first length inside the octave under every scheduler width of the procs process
+	for k := 3; k <= 14; k++ {
+		for i, n := range octave(k, 2) {
+			stride := []int{1, 2, 7, 64, 65}[(k+i)%5]
+			pos := make([]int32, n)
+			for j := range pos {
+				pos[j] = int32(j*stride + j%stride)
+			}
+			run := func() {
+				checker.Run(t, Case{Op: "of", Positions: pos, Class: "grid-list-length"})
+				checker.Run(t, Case{Op: "of", Positions: pos, HasN: true, N: pos[n-1] + int32(1+i*32), Class: "grid-list-length"})
+			}
+			if n >= 128 && i == 3 {
+				vk.ProcsSweep(run)
+			} else {
+				run()
+			}
+			if k <= 13 {
+				w := bigWords(int(n), uint64(n), (k+i)%len(bigStyles), true)
+				nb := int32(64 * n)
+				runB := func() {
+					checker.Run(t, Case{Op: "bitmap", Words: w, Probes: []int32{nb - 1, nb - 64, nb - 65, nb / 2, nb/2 + 63, nb / 3}, Class: "grid-bitmap-length"})
+				}
+				if n >= 128 && i == 3 && k <= 12 {
+					vk.ProcsSweep(runB)
+				} else {
+					runB()
+				}
+			}
+		}
 	}
 	// OfMany on every pair of segments over positions 0..3 (sizes 0..3 / 4), including positions >= size that
 	// collide with a position of the next segment; the rebased list stays non-decreasing (Of's input contract)
@@ -845,6 +1353,77 @@ func TestGrid(t *testing.T) {
 			}
 		}
 	}
+	// OfMany: the running sum in every octave up to 2^25 (2^26 .. 2^29: TestLast, the results are 8 .. 64 MiB)
+	for k := 2; k <= 25; k++ {
+		for i, sum := range octave(k, 2) {
+			checker.Run(t, ofManySum(sum, i, "grid-running-sum"))
+		}
+	}
+	// OfMany: the number of segments in every octave up to 2^13 (sizes 0..4, a position in three non-empty segments out
+	// of four, now and then the first bit of the next segment too); from 128 segments on the length inside the octave under
+	// every scheduler width
+	for k := 1; k <= 13; k++ {
+		for i, nseg := range octave(k, 1) {
+			c := Case{Op: "ofmany", Class: "grid-segment-count", Shape: uint32(nseg)}
+			for s := 0; s < int(nseg); s++ {
+				h := vk.Mix(uint64(nseg)<<16 + uint64(s))
+				size := int32(h % 5)
+				sub := []int32{}
+				if size > 0 && h>>8&3 != 0 {
+					sub = append(sub, int32(h>>16&0xffff)%size)
+					if h>>32&7 == 0 {
+						sub = append(sub, size)
+					}
+				}
+				c.Subs, c.Sizes = append(c.Subs, sub), append(c.Sizes, size)
+			}
+			c.Subs[nseg-1], c.Sizes[nseg-1] = []int32{0, 2}, 3
+			if nseg >= 128 && i == 3 {
+				vk.ProcsSweep(func() { checker.Run(t, c) })
+			} else {
+				checker.Run(t, c)
+			}
+		}
+	}
+	// Builder: one large segment / one far Set position in every octave up to 2^24 (fresh and pre-sized builders)
+	for k := 3; k <= 24; k++ {
+		extra := 2
+		if k > 20 {
+			extra = 0
+		}
+		for i, size := range octave(k, extra) {
+			prealloc := []int32{0, 64, int32(size), int32(size + 37), int32(2*size + 500)}[(k+i)%5]
+			checker.Run(t, builderSize(size, i, prealloc, "grid-segment-size"))
+			checker.Run(t, Case{Op: "builder", Class: "grid-set-position", Prealloc: []int32{0, int32(size)}[i%2], Steps: []Step{
+				{Kind: "set", Pos: int32(size), Value: 1}, {Kind: "set", Pos: int32(size - 1), Value: int32(i & 1)}, {Kind: "set", Pos: 0, Value: 1},
+				{Kind: "extend", Positions: []int32{0, 63}, Size: 1}, {Kind: "set", Pos: int32(size + 65), Value: 1}}})
+		}
+	}
+	// Builder: the number of steps in every octave up to 2^12 (each Extend adds 0..4 bits, every fourth step is a Set
+	// just behind / at / ahead of Offset)
+	for k := 4; k <= 12; k++ {
+		for i, n := range octave(k, 1) {
+			c := Case{Op: "builder", Class: "grid-step-count", Prealloc: []int32{0, 1000}[i%2], Shape: uint32(n)}
+			off := int64(0)
+			for s := 0; s < int(n); s++ {
+				h := vk.Mix(uint64(n)<<16 + uint64(s))
+				if s%4 == 3 {
+					p := max(off+int64(h%5)-2, 0)
+					c.Steps = append(c.Steps, Step{Kind: "set", Pos: int32(p), Value: int32(h >> 8 & 1)})
+					off = max(off, p+1)
+					continue
+				}
+				size := int32(h % 5)
+				var pos []int32
+				if h>>8&1 == 1 {
+					pos = append(pos, int32(h>>16&0xffff)%(size+1))
+				}
+				c.Steps = append(c.Steps, Step{Kind: "extend", Positions: pos, Size: size})
+				off += int64(size)
+			}
+			checker.Run(t, c)
+		}
+	}
 	vk.MarkExhaustive("Of on all subsets of {0,1,62,63,64,65,127,128} x n in {absent, MinInt32, -1, 0, 1, 63, 64, 65, 128, 129, 130, 192, 1000}")
 }
 
@@ -856,6 +1435,20 @@ func FuzzProp(f *testing.F) { checker.Fuzz(f, genCase) }
 // what they leave behind in the library cannot mask anything the ordinary cases would have met.
 func TestLast(t *testing.T) {
 	vk.SetPhase("last")
+	// the octaves between the grid and the top: last position of Of 2^25 .. 2^30, running sum of OfMany 2^26 .. 2^29
+	for k := 25; k <= 30; k++ {
+		for i, v := range []int64{int64(1)<<uint(k) - 1, int64(1) << uint(k), between(k, 0)} {
+			p := int32(v)
+			c := Case{Op: "of", Positions: []int32{3, p / 2, p - 64, p}, Class: "grid-last-position"}
+			if i%2 == 1 {
+				c.HasN, c.N = true, p+int32(i)*33
+			}
+			checker.Run(t, c)
+		}
+	}
+	for k := 26; k <= 29; k++ {
+		checker.Run(t, ofManySum([]int64{int64(1)<<uint(k) + 1, between(k, 0)}[k%2], k, "grid-running-sum"))
+	}
 	// the top of the int32 range: results of exactly 2^25 words (untouched pages cost nothing)
 	top := int32(math.MaxInt32)
 	for _, c := range []Case{
@@ -873,12 +1466,31 @@ func TestLast(t *testing.T) {
 		{Op: "ofmany", Subs: [][]int32{{1}, {5}}, Sizes: []int32{1 << 30, 1<<30 - 1}},
 		{Op: "ofmany", Subs: [][]int32{{1}, {5, 1<<30 - 1}, {}}, Sizes: []int32{1 << 30, 1 << 29, 1<<29 - 1}},
 		{Op: "ofmany", Subs: [][]int32{{0}, {1<<30 - 2}}, Sizes: []int32{1<<30 + 1, 1<<30 - 2}},
+		{Op: "ofmany", Subs: [][]int32{{0}, {}, {}}, Sizes: []int32{1, 1 << 30, 1<<30 - 2}}, // (the words exist for the sizes alone)
 	} {
 		c.Class = "grid-top-of-int32"
 		checker.Run(t, c)
 	}
+	// a Builder history whose Offset ends at 2^31-1, on a pre-sized builder (the words are appended within the capacity
+	// but for the last one); thorough also from an empty builder (2^25 appends that reallocate again and again: seconds).
+	// The last step sets the very last position an int32 holds, 2^31-1, with size 0 (Offset stays 2^31-1): Of([2^31-1])
+	// builds that bitmap, so Extend must as well (it did not: end = Offset + last + 1 wrapped in int32; /repo 13ff612).
+	topSteps := []Step{
+		{Kind: "extend", Positions: []int32{1, 1<<30 - 1, 1 << 30}, Size: 1 << 30},
+		{Kind: "extend", Positions: []int32{5, 1<<30 - 10}, Size: 1<<30 - 8}, // Offset 2^31-8
+		{Kind: "extend", Positions: []int32{0, 6}, Size: 3},                  // bits 2^31-8 and 2^31-2; Offset 2^31-5
+		{Kind: "set", Pos: top - 3, Value: 1},                                // Offset 2^31-3
+		{Kind: "extend", Positions: []int32{0}, Size: 2},                     // Offset 2^31-1
+		{Kind: "set", Pos: top - 2, Value: 0},
+		{Kind: "extend", Positions: []int32{0}, Size: 0}, // bit 2^31-1
+	}
+	checker.Run(t, Case{Op: "builder", Prealloc: top, Steps: topSteps, Class: "grid-top-of-int32"})
+	if vk.Thorough() {
+		checker.Run(t, Case{Op: "builder", Prealloc: 0, Steps: topSteps, Class: "grid-top-of-int32"})
+	}
 	for v := 0; v < gen.MaxVariants; v++ {
-		checker.Run(t, Case{Op: "maxbitmap", Max: v, Class: "grid-maximum"})
+		// ToArray of the maximum bitmap takes 2 s: the quick tier runs it on the description whose very last bit is set
+		checker.Run(t, Case{Op: "maxbitmap", Max: v, ToArr: v == 2, Class: "grid-maximum"})
 	}
 	checker.RegressLast(t)
 }
